@@ -371,82 +371,7 @@ type CFCase struct {
 	Src string `json:"src"`
 }
 
-type cfgen struct {
-	t   *rapid.T
-	ctr int
-}
-
-func (g *cfgen) pick(label string, n int) int { return gen.Uniform(g.t, label, n) }
-
-func (g *cfgen) cond(inLoop bool) string {
-	cs := []string{"p0", "p1", "p2", "!p0", "r%2 == 0", "r > 10", "p1 && p2", "p0 || p2"}
-	if inLoop {
-		cs = append(cs, "i == 1", "i == 0")
-	}
-	return cs[g.pick("cond", len(cs))]
-}
-
-func (g *cfgen) block(depth int, inLoop bool, ind string) []string {
-	n := g.pick("nstmts", 4)
-	var out []string
-	for k := 0; k < n; k++ {
-		out = append(out, g.stmt(depth, inLoop, ind)...)
-	}
-	return out
-}
-
-func (g *cfgen) stmt(depth int, inLoop bool, ind string) []string {
-	g.ctr++
-	kinds := 7
-	if depth <= 0 {
-		kinds = 4
-	}
-	switch g.pick("stmt", kinds) {
-	case 0, 1:
-		return []string{fmt.Sprintf("%sr = r*3 + %d", ind, g.ctr)}
-	case 2:
-		return []string{fmt.Sprintf("%sreturn r + %d", ind, 100+g.ctr)}
-	case 3:
-		if inLoop {
-			return []string{ind + []string{"break", "continue"}[g.pick("bc", 2)]}
-		}
-		return []string{fmt.Sprintf("%sr = r + %d", ind, g.ctr)}
-	case 4, 5:
-		out := []string{ind + "if " + g.cond(inLoop) + " {"}
-		out = append(out, g.block(depth-1, inLoop, ind+"\t")...)
-		switch g.pick("else", 3) {
-		case 1:
-			out = append(out, ind+"} else {")
-			out = append(out, g.block(depth-1, inLoop, ind+"\t")...)
-		case 2:
-			out = append(out, ind+"} else if "+g.cond(inLoop)+" {")
-			out = append(out, g.block(depth-1, inLoop, ind+"\t")...)
-		}
-		return append(out, ind+"}")
-	default:
-		if inLoop {
-			// nested loops would need a second index name; keep one level
-			return []string{fmt.Sprintf("%sr = r + %d", ind, g.ctr)}
-		}
-		out := []string{ind + "for i := uint64(0); i < 3; i++ {"}
-		out = append(out, g.block(depth-1, true, ind+"\t")...)
-		return append(out, ind+"}")
-	}
-}
-
-func genCF(t *rapid.T) CFCase {
-	g := &cfgen{t: t}
-	var sb strings.Builder
-	sb.WriteString("package main\n\nfunc cf(p0 bool, p1 bool, p2 bool) uint64 {\n\tvar r uint64 = 1\n")
-	for _, l := range g.block(3, false, "\t") {
-		sb.WriteString(l + "\n")
-	}
-	sb.WriteString("\treturn r\n}\n\n")
-	for k := 0; k < 8; k++ {
-		fmt.Fprintf(&sb, "func entry%d() uint64 {\n\treturn cf(%v, %v, %v)\n}\n\n", k, k&1 != 0, k&2 != 0, k&4 != 0)
-	}
-	return CFCase{Src: sb.String()}
-}
+func genCF(t *rapid.T) CFCase { return CFCase{Src: gen.GenerateControlFlow(t)} }
 
 func checkCF(t ev.TB, c CFCase) {
 	ev.Eval()
